@@ -59,6 +59,7 @@ Theorem Inv_upd s l lk' t oh :
               In l (tholding (gett s' t'))) ->
   (is_prio_task s t = false -> tholding (gett s' t) = []) ->
   (forall t', lowner (getl s' l) = Some t' -> t' < length (tasks s)) ->
+  (forall l0, l0 < length (locks s) -> count_occ Nat.eq_dec (tholding (gett s' t)) l0 <= 1) ->
   (lkind_ (getl s l) = LPlain -> arr (lpq (getl s' l)) = []) ->
   qwf (lpq (getl s' l)) ->
   (forall f1 f2, In f1 (objs s' l) -> In f2 (objs s' l) ->
@@ -94,6 +95,30 @@ Qed.
 Lemma upd_tholding_other s l lk' t oh t' :
   t' <> t -> tholding (gett (upd s l lk' t oh) t') = tholding (gett s t').
 Proof. intros H. now rewrite upd_gett_other. Qed.
+
+Lemma count_occ_filter_eq (H : list nat) l :
+  count_occ Nat.eq_dec (filter (fun x => negb (Nat.eqb x l)) H) l = 0.
+Proof.
+  apply count_occ_not_In. intros Hin. apply filter_In in Hin as [_ Hin].
+  rewrite Nat.eqb_refl in Hin. discriminate.
+Qed.
+Lemma count_occ_filter_neq (H : list nat) l l0 :
+  l0 <> l -> count_occ Nat.eq_dec (filter (fun x => negb (Nat.eqb x l)) H) l0 = count_occ Nat.eq_dec H l0.
+Proof.
+  intros Hne. induction H as [|x H IH]; simpl; auto.
+  destruct (Nat.eqb x l) eqn:E; simpl.
+  - apply Nat.eqb_eq in E. subst x. destruct (Nat.eq_dec l l0); [congruence|exact IH].
+  - destruct (Nat.eq_dec x l0); [now rewrite IH|exact IH].
+Qed.
+Lemma count_cons_fresh s t l l0 :
+  Inv s -> lowner (getl s l) = None -> l0 < length (locks s) ->
+  count_occ Nat.eq_dec (l :: tholding (gett s t)) l0 <= 1.
+Proof.
+  intros I Ho Hl0. simpl. destruct (Nat.eq_dec l l0) as [->|Hne]; [|apply (iA6 I); auto].
+  assert (~ In l0 (tholding (gett s t))) as Hn.
+  { intros Hin. pose proof (iA2 I _ _ Hl0 Hin). congruence. }
+  apply (count_occ_not_In Nat.eq_dec) in Hn. lia.
+Qed.
 
 (* ---------------------------------------------------------------- _take_lock *)
 Definition take_lk (s : st) (l t : nat) : lock :=
@@ -147,6 +172,7 @@ Proof.
   - intros t' Ho'. destruct (upd_lk s l (take_lk s l t) t (take_oh s l t)) as [[_ E]|(_ & E & _)]; fold s' in E; rewrite E in Ho'.
     + cbn in Ho'. inversion Ho'; subst t'. auto.
     + congruence.
+  - intros l0 Hl0. rewrite Hth. destruct (is_prio_task s t); [now apply count_cons_fresh|apply (iA6 I); auto].
   - intros Hk. rewrite Hq. apply (iB0 I); auto.
   - rewrite Hq. apply (iB1 I).
   - intros f1 f2. rewrite Hob. apply (iC1 I).
@@ -260,6 +286,9 @@ Proof.
   - intros; discriminate.
   - intros Hp. rewrite Hth, Hp. apply (iA4 I); auto.
   - intros; discriminate.
+  - intros l0 Hl0. rewrite Hth. destruct (is_prio_task s t); [|apply (iA6 I); auto].
+    destruct (Nat.eq_dec l0 l) as [->|Hne]; [rewrite count_occ_filter_eq; lia|].
+    rewrite count_occ_filter_neq by auto. apply (iA6 I); auto.
   - apply (iB0 I).
   - apply (iB1 I).
   - intros f1 f2. rewrite Hob. apply (iC1 I).
@@ -510,6 +539,7 @@ Proof.
     + intros t' Ho Hpr. exact (iA3 I l t' Ho Hpr).
     + exact (iA4 I 0).
     + exact (iA5 I l).
+    + intros l0 Hl0. exact (iA6 I 0 l0 Hl0).
     + intros Hk. apply perm_nil_objs. pose proof (iB0 I l Hk) as Hn.
       unfold objs, pq_objs in Hp. rewrite Hn in Hp. simpl in Hp. apply Permutation_nil. now apply Permutation_sym.
     + exact Hq.
@@ -528,6 +558,7 @@ Proof.
     + intros t' Ho Hpr. exact (iA3 I l t' Ho Hpr).
     + exact (iA4 I 0).
     + exact (iA5 I l).
+    + intros l0 Hl0. exact (iA6 I 0 l0 Hl0).
     + apply (iB0 I).
     + apply (iB1 I).
     + intros f1 f2. rewrite Hob. apply (iC1 I).
@@ -690,6 +721,9 @@ Proof.
   - intros t' Ho'. unfold lk' in Ho'. destruct took; cbn in Ho'.
     + inversion Ho'; subst t'. apply (Htk eq_refl).
     + apply (iA5 I _ _ Ho').
+  - intros l0 Hl0. rewrite Hth. destruct took; simpl; [|apply (iA6 I); auto].
+    destruct (is_prio_task s t); [|apply (iA6 I); auto].
+    apply count_cons_fresh; auto. apply (Htk eq_refl).
   - intros Hk. exfalso. pose proof (iB0 I l Hk) as Hn.
     unfold pq_objs in Hp at 1. rewrite Hn in Hp. simpl in Hp. apply Permutation_nil in Hp. discriminate.
   - unfold lk'. destruct took; exact Hq.
@@ -831,6 +865,7 @@ Proof.
   - intros t' Ho Hpr. exact (iA3 I l t' Ho Hpr).
   - exact (iA4 I 0).
   - exact (iA5 I l).
+  - intros l0 Hl0. exact (iA6 I 0 l0 Hl0).
   - intros Hk'. congruence.
   - apply qwf_add; [apply (iB1 I)|exact Hnin].
   - intros f1 f2 H1 H2 W1 W2. apply Hob in H1, H2.
